@@ -139,6 +139,68 @@ class _CallStream:
         self.fn, self.sentinel, self.truthy, self.pred = fn, sentinel, truthy, pred
 
 
+def _percent_format(fmt_, args):
+    """'...%05d...%s' % args with a constant format string: literal text and one formatted piece per conversion, as an f-string
+    with the same specs would give (`'blk%05d.dat' % n` and f'blk{n:05d}.dat' are one term); None for anything unusual."""
+    import re
+    if not isinstance(fmt_, str) or isinstance(fmt_, T):
+        return None
+    if isinstance(args, dict) or (isinstance(args, T) and tm.tyof(args) in (tm.DICT, tm.TUPLE, tm.ANY)):
+        return None
+    vals = list(args) if isinstance(args, tuple) else [args]
+    pieces = re.split(r"(%(?:%|[-0 +#]*\d*(?:\.\d+)?[dsxXori]))", fmt_)
+    if "%" in "".join(p for p in pieces[0::2]):
+        return None  # a conversion this does not know
+    parts, k = [], 0
+    for i, p_ in enumerate(pieces):
+        if i % 2 == 0:
+            if p_:
+                parts.append(p_)
+            continue
+        if p_ == "%%":
+            parts.append("%")
+            continue
+        if k >= len(vals):
+            return None
+        v = vals[k]
+        k += 1
+        flags, conv = p_[1:-1], p_[-1]
+        if flags and not re.fullmatch(r"0?\d+", flags) and not (tm.is_conc(v) and not isinstance(v, (bytes, list, dict, tuple))):
+            return None  # only zero padding / a minimum width mean the same in a format spec
+        if tm.is_conc(v) and not isinstance(v, (bytes, list, dict, tuple)):
+            try:
+                parts.append(p_ % v)
+                continue
+            except (TypeError, ValueError):
+                return None
+        if conv in "di" :
+            if tm.tyof(v) not in (tm.INT, tm.BOOL):
+                return None
+            parts.append(T("fmt", (tm._fz(v), (flags + "d") if flags else None, -1), tm.STR) if flags else T("fmt", (tm._fz(v), None, -1), tm.STR))
+        elif conv == "s" and not flags:
+            parts.append(v if tm.tyof(v) == tm.STR else T("fmt", (tm._fz(v), None, -1), tm.STR))
+        elif conv in "xXo" and tm.tyof(v) in (tm.INT, tm.BOOL):
+            parts.append(T("fmt", (tm._fz(v), flags + conv, -1), tm.STR))
+        else:
+            return None
+    if k != len(vals):
+        return None
+    return tm.scat(parts)
+
+
+def _nonlocal_names(fnode):
+    out = []
+    work = list(fnode.body)
+    while work:
+        n = work.pop()
+        if isinstance(n, (ast.FunctionDef, ast.AsyncFunctionDef, ast.Lambda, ast.ClassDef)):
+            continue
+        if isinstance(n, ast.Nonlocal):
+            out.extend(n.names)
+        work.extend(ast.iter_child_nodes(n))
+    return out
+
+
 class _Closure:
     """A function defined inside a function (a decorator's wrapper, a helper): its definition and the environment it closes over
     (by reference, as in Python)."""
@@ -184,6 +246,43 @@ class _Obj:
 
     def __hash__(self):
         return hash((self.modname, self.cls))
+
+
+class _EnumInt(int):
+    """A member of an IntEnum / IntFlag of the package: the integer it is (arithmetic, comparison, formatting, hashing all as
+    that integer), plus which member of which class, so that .name / .value / the class's own methods and properties resolve."""
+
+    def __new__(cls, v, modname, ecls, member):
+        o = int.__new__(cls, v)
+        o.modname, o.cls, o.member = modname, ecls, member
+        return o
+
+    def __deepcopy__(self, memo):
+        return self
+
+    def __copy__(self):
+        return self
+
+    def __reduce__(self):
+        return (_EnumInt, (int(self), self.modname, self.cls, self.member))
+
+
+class _EnumStr(str):
+    """A member of a `class X(str, Enum)` / StrEnum of the package."""
+
+    def __new__(cls, v, modname, ecls, member):
+        o = str.__new__(cls, v)
+        o.modname, o.cls, o.member = modname, ecls, member
+        return o
+
+    def __deepcopy__(self, memo):
+        return self
+
+    def __copy__(self):
+        return self
+
+    def __reduce__(self):
+        return (_EnumStr, (str(self), self.modname, self.cls, self.member))
 
 
 def clone(v, _memo=None):
@@ -572,8 +671,14 @@ class Evaluator:
             fr.env["__yield__"] = []  # a generator is summarised by the list of values it yields, in order
         self._stack.append(fi.qualname)
         prev_cls = self._cur_cls
+        prev_dyn = self.__dict__.get("_dyn_cls")
+        if getattr(fi, "dyn_cls", None) is not None:
+            self._dyn_cls = fi.dyn_cls
         if fi.cls:
             self._cur_cls = (fi.module.name, fi.cls)
+            dyn = self.__dict__.get("_dyn_cls")
+            if dyn is not None and dyn != self._cur_cls and self._is_base_of(self._cur_cls, dyn):
+                self._cur_cls = dyn  # a method inherited by the object under analysis: `self` is still an object of that class
         try:
             done = self.block(fi.node.body, fr)
             if not done:
@@ -581,8 +686,35 @@ class Evaluator:
         finally:
             self._stack.pop()
             self._cur_cls = prev_cls
+            self._dyn_cls = prev_dyn
         summary.env = fr.env
         return summary
+
+    def _is_base_of(self, base, cls, depth=0):
+        """Is package class `base` (module name, class name) among the package base classes of `cls`?"""
+        m = self.prog.modules.get(cls[0])
+        node = m.classnodes.get(cls[1]) if m is not None else None
+        if node is None or depth > 5:
+            return False
+        for b in node.bases:
+            r = self.prog.resolve_chain(cls[0], dotted_parts(b) or [])
+            if r is not None and r[0] == "class":
+                if (r[1].name, r[2]) == tuple(base) or self._is_base_of(base, (r[1].name, r[2]), depth + 1):
+                    return True
+        return False
+
+    def _default_frame(self, fi, d):
+        """Where a default expression is evaluated: the module, and for a method also the names the class body has assigned."""
+        fr = Frame(self, fi.module.name, None, Summary(None), 0)
+        cnode = fi.module.classnodes.get(fi.cls) if fi.cls else None
+        if cnode is not None:
+            used = {n.id for n in ast.walk(d) if isinstance(n, ast.Name)}
+            for st in cnode.body:
+                if getattr(st, "lineno", 0) >= fi.node.lineno:
+                    break
+                if isinstance(st, ast.Assign) and len(st.targets) == 1 and isinstance(st.targets[0], ast.Name) and st.targets[0].id in used:
+                    fr.env[st.targets[0].id] = self.expr(st.value, fr)
+        return fr
 
     def default_of(self, fi, pname):
         a = fi.node.args
@@ -590,12 +722,10 @@ class Evaluator:
         defaults = [None] * (len(allp) - len(a.defaults)) + list(a.defaults)
         for p, d in zip(allp, defaults):
             if p.arg == pname and d is not None:
-                fr = Frame(self, fi.module.name, None, Summary(None), 0)
-                return True, self.expr(d, fr)
+                return True, self.expr(d, self._default_frame(fi, d))
         for p, d in zip(a.kwonlyargs, a.kw_defaults):
             if p.arg == pname and d is not None:
-                fr = Frame(self, fi.module.name, None, Summary(None), 0)
-                return True, self.expr(d, fr)
+                return True, self.expr(d, self._default_frame(fi, d))
         return False, None
 
     def bind_call(self, fi, pos, kw, skip_self=False):
@@ -687,7 +817,7 @@ class Evaluator:
             self.add_exit(fr, "raise", msg, st, exc=exc)
             return True
         if isinstance(st, ast.Assert):
-            c = self.decide(tm.truth(self.expr(st.test, fr)))
+            c = self.decide(self.truth_expr(st.test, fr))
             if c is True:
                 return False
             f2 = fr.fork(tm.lnot(c))
@@ -1020,7 +1150,7 @@ class Evaluator:
         return v
 
     def if_(self, st, fr):
-        c = self.decide_in(tm.truth(self.expr(st.test, fr)), fr)
+        c = self.decide_in(self.truth_expr(st.test, fr), fr)
         if c is True:
             return self.block(st.body, fr)
         if c is False:
@@ -1128,8 +1258,24 @@ class Evaluator:
         no_implicit_assert = not unscripted
         # a body that made no call and met no raising primitive (e.g. a lookup that was decided on constants) cannot raise
         # anything beyond its explicit exits: no opaque `except` flow is needed for it
-        body_inert = (len(fr.summary.calls), len(fr.summary.hazards)) == marks0 and not any(
-            isinstance(n, (ast.Call, ast.BinOp, ast.Attribute, ast.Await, ast.Yield)) and id(n) not in self.__dict__.get("_inert_calls", ()) for b in st.body for n in ast.walk(b)) and len(fr.summary.exits) == n0
+        def _global_ref(n):  # a dotted name rooted in a module-level name (pkg.mod.Class): reading it raises nothing
+            parts_ = dotted_parts(n) if isinstance(n, ast.Attribute) else None
+            return bool(parts_) and parts_[0] not in pre_env and self.prog.resolve_chain(fr.modname, parts_) is not None
+        _value_errors_only = all(nm_ in ("ValueError", "KeyError", "IndexError", "LookupError", "AssertionError", "StopIteration") for _h, ns_ in handled for nm_ in ns_)
+
+        def _type_error_at_most(n):  # len(x), a + b, a * 8 ...: nothing a handler of value errors would catch
+            if not _value_errors_only:
+                return False
+            if isinstance(n, ast.BinOp):
+                return isinstance(n.op, (ast.Add, ast.Sub, ast.Mult, ast.BitAnd, ast.BitOr, ast.BitXor))
+            return isinstance(n, ast.Call) and isinstance(n.func, ast.Name) and n.func.id == "len" and "len" not in pre_env and self.prog.resolve_chain(fr.modname, ["len"]) is None
+        _calls_made = [c_ for c_ in fr.summary.calls[marks0[0]:] if not (_value_errors_only and c_[0] in ("builtins.len", "builtins.isinstance", "builtins.type"))]
+        body_inert = not _calls_made and len(fr.summary.hazards) == marks0[1] and not any(
+            isinstance(n, (ast.Call, ast.BinOp, ast.Attribute, ast.Await, ast.Yield)) and id(n) not in self.__dict__.get("_inert_calls", ()) and not _global_ref(n) and not _type_error_at_most(n)
+            for b in st.body for n in ast.walk(b))
+        if os.environ.get("SA_DEBUG_TRY"):
+            print("TRY", fr.modname, st.lineno, "calls", len(fr.summary.calls) - marks0[0], [c[0] for c in fr.summary.calls[marks0[0]:]], "hazards", len(fr.summary.hazards) - marks0[1], "inert", body_inert,
+                  [type(n).__name__ + ":" + ast.unparse(n)[:40] for b in st.body for n in ast.walk(b) if isinstance(n, (ast.Call, ast.BinOp, ast.Attribute, ast.Await, ast.Yield)) and id(n) not in self.__dict__.get("_inert_calls", ()) and not _global_ref(n) and not _type_error_at_most(n)])
         fr.trystack.pop()
         # implicit errors of the body (a failing lookup, an index past the end) that a handler of THIS statement names are
         # caught here: they are no longer hazards of the function (the handler flow below stands for them)
@@ -1294,10 +1440,21 @@ class Evaluator:
     def _fuse_generator_loop(self, st, fr):
         """A `for` loop over a call of a generator function of the same module (or a generator method of the same object) is
         evaluated as the one loop the pair amounts to (sa/fuse.py); None when the pair is not of the fusable shape."""
-        from .fuse import fuse_loop
+        from .fuse import fuse_loop, fuse_zip_range_loop, zip_range_parts
         call = st.iter
+        if isinstance(call, ast.Name) and fr.fi is not None and call.id in fr.env:
+            # `items = zip(range(n), gen(...))` immediately before `for ... in items:` (the name is used nowhere else)
+            uses = [n for n in ast.walk(fr.fi.node) if isinstance(n, ast.Name) and n.id == call.id]
+            prev = self._stmt_before(fr.fi.node, st)
+            if len(uses) == 2 and isinstance(prev, ast.Assign) and len(prev.targets) == 1 and isinstance(prev.targets[0], ast.Name) and prev.targets[0].id == call.id and \
+                    isinstance(prev.value, ast.Call):
+                st = ast.copy_location(ast.For(target=st.target, iter=prev.value, body=st.body, orelse=st.orelse), st)
+                call = st.iter
         if not isinstance(call, ast.Call):
             return None
+        zipped = zip_range_parts(call)
+        if zipped is not None:
+            call = zipped[1]
         parts = dotted_parts(call.func)
         if not parts or parts[0] in fr.env and not (len(parts) == 2 and isinstance(fr.env.get(parts[0]), (_Obj, T)) and self._cur_cls):
             return None
@@ -1325,7 +1482,20 @@ class Evaluator:
         if fi.node.decorator_list and self_expr is None:
             return None
         self._fuse_n = getattr(self, "_fuse_n", 0) + 1
+        if zipped is not None:
+            return fuse_zip_range_loop(st, fi.node, "__%s%d_" % (fi.node.name, self._fuse_n), self_expr=self_expr)
         return fuse_loop(st, fi.node, "__%s%d_" % (fi.node.name, self._fuse_n), self_expr=self_expr)
+
+    @staticmethod
+    def _stmt_before(fnode, st):
+        """The statement directly before `st` in the block that holds it (None when `st` opens its block)."""
+        for n in ast.walk(fnode):
+            for fld in ("body", "orelse", "finalbody"):
+                blk = getattr(n, fld, None)
+                if isinstance(blk, list) and st in blk:
+                    i = blk.index(st)
+                    return blk[i - 1] if i > 0 else None
+        return None
 
     def for_(self, st, fr):
         fused = self._fuse_generator_loop(st, fr)
@@ -1336,6 +1506,8 @@ class Evaluator:
             items = self.obj_iter(it, st, fr)
             if items is not None:
                 it = items
+        if isinstance(it, T) and it.op == "classref" and self.enum_iter(it) is not None:
+            it = self.enum_iter(it)
         if isinstance(it, _Iter):
             # consume the iterator one element at a time: a break leaves the rest for whoever uses the iterator next
             while it.pos < len(it.items):
@@ -1468,7 +1640,7 @@ class Evaluator:
                 return self.block(lifted, fr)
         st = self._norm_while(st)
         # a while whose test folds to False never runs
-        c0 = tm.truth(self.expr(st.test, fr))
+        c0 = self.truth_expr(st.test, fr)
         if c0 is False:
             return False
         if c0 is True:
@@ -1482,7 +1654,7 @@ class Evaluator:
             n = 0
             try:
                 while True:
-                    c = tm.truth(self.expr(st.test, fr))
+                    c = self.truth_expr(st.test, fr)
                     if c is False:
                         break
                     if c is not True or n >= MAX_UNROLL:
@@ -1533,7 +1705,7 @@ class Evaluator:
             else:
                 self.assign(st.target, tm.bv(d, elem_ty), sub)
         else:
-            info.cond = tm.truth(self.expr(st.test, sub))
+            info.cond = self.truth_expr(st.test, sub)
         n0 = len(fr.summary.exits)
         try:
             self.block(st.body, sub)
@@ -1614,6 +1786,12 @@ class Evaluator:
                 return r
         if isinstance(r, T) and r.op == "raise" and r.args and isinstance(r.args[0], str) and r.args[0] in ("ValueError", "KeyError", "IndexError", "AssertionError") and fr.fi is not None and fr.loopdepth == 0:
             raise _ExprRaise(r.args[0])
+        if getattr(self, "bind_pred", None) is not None and isinstance(r, T) and not isinstance(e, (ast.Name, ast.Constant)):
+            # the obligation names a whole CLASS of terms (recognised by a predicate, e.g. "the lines of the data file") by one symbol
+            bp = self.bind_pred
+            if self.__dict__.get("_bind_pred_memo_for") is not bp:
+                self._bind_pred_memo_for, self._bind_pred_memo = bp, {}
+            r = tm.subst(r, lambda t: bp(t) if isinstance(t, T) else None, self._bind_pred_memo)
         if self.bind and isinstance(r, T):
             if not isinstance(e, (ast.Name, ast.Constant)):
                 b = self.bind
@@ -1671,6 +1849,12 @@ class Evaluator:
                         if key not in cache:
                             cache[key] = _Obj(r[1].name, r[2], {"name": r[3], "value": val, "_name_": r[3], "_value_": val})
                         return cache[key]
+                    bnames_ = {(dotted_parts(b) or ["?"])[-1] for b in cnode.bases} if cnode is not None else set()
+                    if not r[3].startswith("_") and not ({"__new__", "_generate_next_value_"} & set(_meths)) and not isinstance(val, bool):
+                        if isinstance(val, int) and (bnames_ & {"IntEnum", "IntFlag"} or {"int", "Enum"} <= bnames_):
+                            return _EnumInt(val, r[1].name, r[2], r[3])
+                        if isinstance(val, str) and ("StrEnum" in bnames_ or {"str", "Enum"} <= bnames_):
+                            return _EnumStr(val, r[1].name, r[2], r[3])
                     if cnode is not None and any((dotted_parts(b) or ["?"])[-1] == "Enum" for b in cnode.bases) and "__new__" in _meths and "_generate_next_value_" not in _meths \
                             and not r[3].startswith("_"):
                         # a member of an Enum with its own __new__ (members carrying extra attributes): __new__(cls, *value) builds the
@@ -1695,6 +1879,25 @@ class Evaluator:
         return tm.unk("ref")
 
     _ENUM_BASES = {"Enum", "IntEnum", "IntFlag", "Flag", "StrEnum"}
+
+    def enum_iter(self, v):
+        """The members an Enum class yields when iterated (aliases -- later names of an earlier value -- left out); None otherwise."""
+        if not (isinstance(v, T) and v.op == "classref" and len(v.args) == 1 and "." in v.args[0]):
+            return None
+        cmod, ccls = v.args[0].rsplit(".", 1)
+        mems = self.enum_members(cmod, ccls)
+        if mems is None:
+            return None
+        out, seen = [], []
+        for _n, mv in mems:
+            val = mv.fields.get("value") if isinstance(mv, _Obj) else mv
+            if not tm.is_conc(val) or isinstance(val, T):
+                return None
+            if any(type(val) == type(s_) and val == s_ for s_ in seen):
+                continue
+            seen.append(val)
+            out.append(mv)
+        return out
 
     def enum_members(self, modname, cls):
         """[(name, member)] of a package Enum class in definition order (None when the class is not an Enum)."""
@@ -1774,6 +1977,24 @@ class Evaluator:
         return NotImplemented
 
     def getattr_value(self, base, attr):
+        if isinstance(base, T) and base.op == "ite" and all(isinstance(a_, (_EnumInt, _EnumStr, _Obj)) or (isinstance(a_, T) and a_.op == "ite") for a_ in base.args[1:]):
+            # a member / an object chosen by a condition: the attribute of whichever was chosen
+            x_, y_ = self.getattr_value(base.args[1], attr), self.getattr_value(base.args[2], attr)
+            if not (isinstance(x_, T) and x_.op in ("attr", "raise")) and not (isinstance(y_, T) and y_.op in ("attr", "raise")):
+                return x_ if tm.veq(x_, y_) else tm.ite(base.args[0], x_, y_)
+        if isinstance(base, (_EnumInt, _EnumStr)):
+            if attr in ("value", "_value_"):
+                return int(base) if isinstance(base, int) else str(base)
+            if attr in ("name", "_name_"):
+                return base.member
+            meths, assigns = self.class_members(base.modname, base.cls)
+            if attr in meths:
+                decos = {ast.unparse(d) for d in meths[attr].node.decorator_list}
+                if "property" in decos or "functools.cached_property" in decos or "cached_property" in decos:
+                    return self.call_fn(meths[attr], [base], {}, meths[attr].node, self._cur if getattr(self, "_cur", None) is not None else Frame(self, base.modname, None, Summary(None), 0))
+                return T("boundmethod", (base, attr))
+            if any(attr in ([t.id for t in st.targets if isinstance(t, ast.Name)] if isinstance(st, ast.Assign) else []) for _mn, st in assigns):
+                return self.ref(("classattr", self.prog.modules[base.modname], base.cls, attr))  # another member / a class constant through a member
         if isinstance(base, _Obj):
             if attr in base.fields:
                 return base.fields[attr]
@@ -1894,7 +2115,7 @@ class Evaluator:
         return out
 
     def e_IfExp(self, e, fr):
-        c = self.decide_in(tm.truth(self.expr(e.test, fr)), fr)
+        c = self.decide_in(self.truth_expr(e.test, fr), fr)
         if c is True:
             return self.expr(e.body, fr)
         if c is False:
@@ -2060,6 +2281,9 @@ class Evaluator:
         if isinstance(op, ast.BitOr) and (ta == tm.DICT or tb == tm.DICT):
             return T("dictmerge", (tm._fz(a), tm._fz(b)), tm.DICT)
         if isinstance(op, ast.Mod) and ta == tm.STR:
+            r_ = _percent_format(a, b)
+            if r_ is not None:
+                return r_
             return T("strformat", (a, tm._fz(b)), tm.STR)
         name = {ast.FloorDiv: "floordiv", ast.Mod: "mod", ast.Pow: "pow", ast.BitAnd: "band", ast.BitOr: "bor",
                 ast.BitXor: "bxor", ast.LShift: "shl", ast.RShift: "shr", ast.Div: "div"}.get(type(op))
@@ -2104,6 +2328,13 @@ class Evaluator:
                 outs.append(tm.cmp(name, left, right))
             left = right
         return tm.land(outs)
+
+    def truth_expr(self, node, fr):
+        """The truth value of a test expression (an object of a package class answers through __bool__ / __len__)."""
+        v = self.expr(node, fr)
+        if isinstance(v, _Obj) and not v.tuple_like:
+            return self.obj_truth(v, node, fr)
+        return tm.truth(v)
 
     def obj_truth(self, v, e, fr):
         r = self.dunder(v, "bool", [], e, fr)
@@ -2156,6 +2387,18 @@ class Evaluator:
         return self.index(base, key)
 
     def index(self, base, key):
+        if isinstance(base, T) and base.op == "classref" and len(base.args) == 1 and "." in base.args[0] and isinstance(key, str):
+            cmod, ccls = base.args[0].rsplit(".", 1)
+            mems = self.enum_members(cmod, ccls)
+            if mems is not None:  # Enum['NAME']: the member of that name, KeyError when there is none
+                for n_, mv in mems:
+                    if n_ == key:
+                        return mv
+                return T("raise", ("KeyError",))
+        if isinstance(base, _Obj) and not base.tuple_like and getattr(self, "_cur", None) is not None:
+            r_ = self.dunder(base, "getitem", [key], getattr(self, "_curnode", None), self._cur)  # obj[key] is obj.__getitem__(key)
+            if r_ is not NotImplemented:
+                return r_
         if isinstance(base, _Obj) and base.tuple_like and isinstance(key, int) and not isinstance(key, bool):
             vals = list(base.fields.values())
             if -len(vals) <= key < len(vals):
@@ -2184,6 +2427,7 @@ class Evaluator:
             return T("field", (base, tm._fz(key)))
         if isinstance(base, T) and base.op in ("field", "bv") and isinstance(key, str):
             return T("field", (base, key))
+
         r = tm.idx(base, key)
         if isinstance(base, T) and base.op == "map" and base.args[2] is None and not (isinstance(r, T) and r.op == "idx" and tm.veq(r.args[0], base)):
             self.hazard(self._cur, "IndexError", tm.idx(T("seq", (base.args[1],), tm.LIST), key), self._curnode)
@@ -2214,6 +2458,8 @@ class Evaluator:
             items_ = self.obj_iter(it, gen.iter, sub)  # an object of a package class: what its __iter__ / __next__ yield
             if items_ is not None:
                 it = items_
+        if isinstance(it, T) and it.op == "classref" and self.enum_iter(it) is not None:
+            it = self.enum_iter(it)
         seq = _concrete_iter(it)
         if seq is None:
             seq = self._bound_length_iter(it)
@@ -2231,7 +2477,7 @@ class Evaluator:
             ok = True
             for x in seq:
                 self.assign(gen.target, x, sub)
-                cs = [self.decide(tm.truth(self.expr(c, sub))) for c in gen.ifs]
+                cs = [self.decide(self.truth_expr(c, sub)) for c in gen.ifs]
                 c = tm.land(cs)
                 if c is False:
                     continue
@@ -2266,14 +2512,32 @@ class Evaluator:
         if kind == "gen":
             kind = "list"
         d = sub.loopdepth
+        composed = None
+        if isinstance(it, T) and it.op == "map" and it.args[2] is None and tm.tyof(it) == tm.LIST:
+            b0 = it.args[0]
+            if isinstance(b0, _Obj):
+                # [f(x) for x in [g(y) for y in src]] where g(y) is a record (an object with fields in terms of y): one pass over
+                # src with x bound to that record
+                idxs = {t_.args[0] for v_ in b0.fields.values() for t_ in tm.subterms(v_) if isinstance(t_, T) and t_.op == "bv"}
+                carried = any(isinstance(t_, T) and t_.op == "acc" for v_ in b0.fields.values() for t_ in tm.subterms(v_))
+                if len(idxs) <= 1 and not carried:  # (a record built from loop-carried state is not a function of the element alone)
+                    k_ = next(iter(idxs)) if idxs else d
+                    if k_ == d:
+                        composed = b0
+                    else:
+                        composed = _Obj(b0.modname, b0.cls, {f_: tm.subst(v_, lambda t_: tm.bv(d, t_.ty) if isinstance(t_, T) and t_.op == "bv" and t_.args[0] == k_ else None)
+                                                            for f_, v_ in b0.fields.items()}, tuple_like=b0.tuple_like)
+                    it = _unfz(it.args[1]) if not isinstance(it.args[1], T) else it.args[1]
         sub.loopdepth = d + 1
         sub.iters[d] = it
         elem_ty = tm.INT if tm.tyof(it) == tm.BYTES else tm.ANY
-        if isinstance(it, T) and it.op == "enumerate":
+        if composed is not None:
+            self.assign(gen.target, composed, sub)
+        elif isinstance(it, T) and it.op == "enumerate":
             self.assign(gen.target, (T("bvi", (d,), tm.INT), tm.bv(d)), sub)
         else:
             self.assign(gen.target, tm.bv(d, elem_ty), sub)
-        cs = [tm.truth(self.expr(c, sub)) for c in gen.ifs]
+        cs = [self.truth_expr(c, sub) for c in gen.ifs]
         c = tm.land(cs)
         b = body(sub)
         if kind == "dict":
@@ -2402,7 +2666,22 @@ class Evaluator:
             if r is not None:
                 return r
         if isinstance(fv, _Closure):
-            return self.call_fn(fv.fi, pos, kw, e, fr, closure_env=fv.env)
+            # free variables are read where they live: in the enclosing function's CURRENT bindings when it is the caller itself
+            # (a local helper), else in the bindings the closure captured. Names the helper declares `nonlocal` are written back.
+            parent_q = fv.fi.qualname.rsplit(".<locals>.", 1)[0]
+            cenv = fr.env if (fr.fi is not None and fr.fi.qualname == parent_q) else fv.env
+            nl = _nonlocal_names(fv.fi.node)
+            if not nl:
+                return self.call_fn(fv.fi, pos, kw, e, fr, closure_env=cenv)
+            self._last_sub = None
+            r = self.call_fn(fv.fi, pos, kw, e, fr, closure_env=cenv)
+            sub_ = self._last_sub
+            if sub_ is None or sub_.fi is not fv.fi or not isinstance(getattr(sub_, "env", None), dict):
+                raise AnalysisError("a helper that rebinds nonlocal names (%s) could not be inlined" % fv.fi.qualname)
+            for nm_ in nl:
+                if nm_ in sub_.env:
+                    cenv[nm_] = sub_.env[nm_]
+            return r
         if isinstance(fv, T) and fv.op == "fnraw":
             return self.call_fn(self.prog.function(fv.args[0]), pos, kw, e, fr, raw=True)
         if isinstance(fv, T) and fv.op == "partial":
@@ -2482,11 +2761,14 @@ class Evaluator:
             if mems is not None and all(isinstance(mv, _Obj) or (tm.is_conc(mv) and not isinstance(mv, T)) for _n, mv in mems):
                 for _n, mv in mems:
                     v_ = mv.fields.get("value") if isinstance(mv, _Obj) else mv
-                    if tm.is_conc(v_) and not isinstance(v_, (T, _Obj)) and type(v_) == type(pos[0]) and v_ == pos[0]:
+                    if tm.is_conc(v_) and not isinstance(v_, (T, _Obj)) and (type(v_) == type(pos[0]) or (isinstance(v_, (int, str)) and isinstance(pos[0], (int, str)) and
+                                                                                  isinstance(v_, int) == isinstance(pos[0], int) and not isinstance(pos[0], bool))) and v_ == pos[0]:
                         if e is not None:
                             self.__dict__.setdefault("_inert_calls", set()).add(id(e))  # decided on constants: this call raised nothing
                         return mv
                 if all(tm.is_conc(mv.fields.get("value") if isinstance(mv, _Obj) else mv) for _n, mv in mems):
+                    if e is not None:
+                        self.__dict__.setdefault("_inert_calls", set()).add(id(e))  # decided on constants: ValueError and nothing else
                     return T("raise", ("ValueError",))
         if "NamedTuple" in bases or "dataclass" in decos:
             names, defaults, noinit = [], {}, []
@@ -2533,7 +2815,7 @@ class Evaluator:
             if "dataclass" in decos and "__post_init__" in meths:
                 self.call_fn(meths["__post_init__"], [obj], {}, e, fr)
             return obj
-        if bases - {"object"} or (modname + "." + cls + ".__init__") in self.policy.opaque or not getattr(self, "model_objects", True):
+        if not self._plain_bases(modname, node) or (modname + "." + cls + ".__init__") in self.policy.opaque or not getattr(self, "model_objects", True):
             return None
         if len(meths) > 12:
             return None  # a large stateful class (the P2P node): its instances stay opaque
@@ -2543,6 +2825,28 @@ class Evaluator:
         elif pos or kw:
             return T("raise", ("TypeError",))
         return obj
+
+    _MIXIN_BASES = {"object", "ABC", "Protocol", "Generic", "Sequence", "Mapping", "Iterable", "Iterator", "Collection", "Container", "Sized", "Hashable", "Reversible"}
+
+    def _plain_bases(self, modname, node, depth=0):
+        """Every base of the class is `object`, an abstract-base / protocol marker (they add no state; the collections.abc mixins add
+        only methods defined in terms of the class's own __getitem__ / __len__ / __iter__), or a package class of that kind."""
+        if depth > 4 or any(k.arg == "metaclass" and (dotted_parts(k.value) or ["?"])[-1] != "ABCMeta" for k in node.keywords):
+            return False
+        for b in node.bases:
+            b0 = b.value if isinstance(b, ast.Subscript) else b  # Generic[T]
+            parts = dotted_parts(b0) or ["?"]
+            if parts[-1] in self._MIXIN_BASES and (len(parts) == 1 or parts[0] in ("abc", "typing", "collections")):
+                r = self.prog.resolve_chain(modname, parts)
+                if r is None or r[0] != "class":
+                    continue
+            r = self.prog.resolve_chain(modname, parts)
+            if r is None or r[0] != "class":
+                return False
+            bn = r[1].classnodes.get(r[2])
+            if bn is None or not self._plain_bases(r[1].name, bn, depth + 1):
+                return False
+        return True
 
     def call_fn(self, fi, pos, kw, e, fr, skip_self=False, closure_env=None, raw=False):
         q = self.policy.alias.get(fi.qualname, fi.qualname)
@@ -2600,6 +2904,7 @@ class Evaluator:
             sub = self.run(fi, bound, depth=fr.depth if recursive else fr.depth + 1, closure_env=closure_env)
         finally:
             self._rec_args[fi.qualname].pop()
+        self._last_sub = sub
         self._copy_out(fi, sub, e, fr, skip_self)
         fr.summary.loops.extend(sub.loops)
         fr.summary.hazards.extend((h[0], h[1], h[2], tuple(fr.guard) + tuple(h[3]), tuple(fr.facts) + tuple(h[4]), h[5],
@@ -2703,6 +3008,19 @@ class Evaluator:
             if meth == "close":
                 return None
             raise AnalysisError("io.BytesIO.%s not modelled" % meth)
+        if isinstance(recv, T) and recv.op == "ite" and all(isinstance(a_, (_EnumInt, _EnumStr)) for a_ in recv.args[1:]) and \
+                all(meth in self.class_members(a_.modname, a_.cls)[0] for a_ in recv.args[1:]):
+            x_, y_ = self.method(recv.args[1], meth, list(pos), kw, e, fr), self.method(recv.args[2], meth, list(pos), kw, e, fr)
+            return x_ if tm.veq(x_, y_) else tm.ite(recv.args[0], x_, y_)
+        if isinstance(recv, (_EnumInt, _EnumStr)):
+            meths_, _a = self.class_members(recv.modname, recv.cls)
+            if meth in meths_:
+                decos_ = {ast.unparse(d) for d in meths_[meth].node.decorator_list}
+                if "classmethod" in decos_:
+                    return self.call_fn(meths_[meth], [T("classref", (recv.modname + "." + recv.cls,))] + list(pos), kw, e, fr)
+                if "staticmethod" in decos_:
+                    return self.call_fn(meths_[meth], list(pos), kw, e, fr)
+                return self.call_fn(meths_[meth], [recv] + list(pos), kw, e, fr)
         if isinstance(recv, _Obj):
             meths, _assigns = self.class_members(recv.modname, recv.cls)
             if meth in meths:
@@ -2906,7 +3224,9 @@ class Evaluator:
             return T("io", (meth, tm._fz(recv), tuple(tm._fz(p) for p in pos), len(fr.summary.calls)), rty)
         # method on self or on an object of a class of the package
         if isinstance(recv, T) and recv.op == "param" and recv.args[0] == "self" and fr.fi is not None and fr.fi.cls:
-            meths = fr.fi.module.classes.get(fr.fi.cls, {})
+            # looked up from the class of the object (the class under analysis when the running method is inherited), then up its
+            # package base classes
+            meths, _a = self.class_members(*(self._cur_cls or (fr.fi.module.name, fr.fi.cls)))
             if meth in meths:
                 decos = {ast.unparse(d) for d in meths[meth].node.decorator_list}
                 if "staticmethod" in decos:
@@ -2935,6 +3255,22 @@ class Evaluator:
         if n.split(".")[0] in ("str", "bytes", "bytearray", "dict", "list") and n.count(".") == 1 and pos and n not in ("bytes.fromhex", "dict.fromkeys", "bytes.maketrans", "str.maketrans", "bytearray.fromhex"):
             # an unbound method of a builtin type used as a function: str.strip(s) is s.strip()
             return self.method(pos[0], n.split(".")[1], list(pos[1:]), kw, e, fr)
+        if len(pos) >= 1 and isinstance(pos[0], T) and pos[0].op == "classref" and n in ("tuple", "list", "iter", "sorted", "reversed", "len", "set", "frozenset", "enumerate", "map", "filter", "zip", "dict", "any", "all", "max", "min", "sum") \
+                and self.enum_iter(pos[0]) is not None:
+            pos = [list(self.enum_iter(pos[0]))] + list(pos[1:])  # an Enum class used as an iterable: its members
+        if len(pos) == 2 and isinstance(pos[1], T) and pos[1].op == "classref" and n in ("map", "filter") and self.enum_iter(pos[1]) is not None:
+            pos = [pos[0], list(self.enum_iter(pos[1]))]
+        if len(pos) == 1 and not kw and isinstance(pos[0], _Obj) and pos[0].tuple_like and n in ("list", "tuple", "len", "iter", "reversed") and \
+                not ({"__iter__", "__len__", "__reversed__"} & set(self.class_members(pos[0].modname, pos[0].cls)[0])):
+            vals_ = list(pos[0].fields.values())  # a NamedTuple is the tuple of its fields
+            return {"list": lambda: vals_, "tuple": lambda: tuple(vals_), "len": lambda: len(vals_), "iter": lambda: _Iter(vals_), "reversed": lambda: vals_[::-1]}[n]()
+        if len(pos) == 1 and not kw and isinstance(pos[0], _Obj) and pos[0].tuple_like and n in ("str", "repr", "bytes", "int", "float", "bool", "hash", "format"):
+            # a NamedTuple that defines the special method itself (str(name) -> name.__str__())
+            r = self.dunder(pos[0], n, [], e, fr)
+            if r is NotImplemented and n == "str":
+                r = self.dunder(pos[0], "repr", [], e, fr)
+            if r is not NotImplemented:
+                return r
         if len(pos) == 1 and not kw and isinstance(pos[0], _Obj) and not pos[0].tuple_like:
             # bytes(x), len(x), int(x), ... on an object of a package class: its special method
             dn = {"bytes": "bytes", "len": "len", "int": "int", "str": "str", "repr": "repr", "hash": "hash", "abs": "abs", "float": "float", "index": "index"}.get(n)
@@ -2957,6 +3293,11 @@ class Evaluator:
                         return tuple(items)
                     if n == "list":
                         return list(items)
+                else:
+                    it_ = self.dunder(pos[0], "iter", [], e, fr)
+                    if isinstance(it_, T) and it_.op == "app" and it_.args[0] == "iter" and len(it_.args[1]) == 1:
+                        # __iter__ hands out iter(<some sequence>): list(obj) / tuple(obj) / sorted(obj) is that of the sequence
+                        return self.extern(name, [_unfz(it_.args[1][0]) if not isinstance(it_.args[1][0], (T, _Obj)) else it_.args[1][0]], kw, e, fr)
         fr.summary.calls.append((name, pos, kw, e, tuple(fr.guard), tuple(fr.facts), dict(fr.iters)))
         try:
             r = self._extern(n, pos, kw, e, fr)
@@ -3348,12 +3689,17 @@ class Evaluator:
                 return "builtins.object" in exts
             if crefs and len(crefs) == len(want0) and not isinstance(a0, _Obj) and (tm.is_conc(a0) or (isinstance(a0, T) and a0.op not in ("param", "ite", "app", "proj", "idx", "attr", "unk", "lookup", "get") and tm.tyof(a0) != tm.ANY)):
                 return False  # a plain value (number, bytes, a term of builtin type) is not an instance of a package class
-        if n == "isinstance" and len(pos) == 2 and type(a0) in (str, bytes, bytearray, int, bool, float, type(None)):
+        if n == "isinstance" and len(pos) == 2 and type(a0) in (list, tuple, dict) and not (isinstance(a0, tuple) and a0 and isinstance(a0[0], str) and a0[0].startswith("#")):
+            want = pos[1] if isinstance(pos[1], (tuple, list)) else (pos[1],)
+            names = [w.args[0] for w in want if isinstance(w, T) and w.op == "ext"]
+            if len(names) == len(want) and all(nm.startswith("builtins.") for nm in names):
+                return bool({"builtins." + type(a0).__name__, "builtins.object"} & set(names))
+        if n == "isinstance" and len(pos) == 2 and type(a0) in (str, bytes, bytearray, int, bool, float, type(None), _EnumInt, _EnumStr):
             # a value the evaluator holds as itself (a literal, a folded constant): its type is what Python says it is
             want = pos[1] if isinstance(pos[1], (tuple, list)) else (pos[1],)
             names = [w.args[0] for w in want if isinstance(w, T) and w.op == "ext"]
             if len(names) == len(want) and all(nm.startswith("builtins.") for nm in names):
-                mro = {"builtins." + c_.__name__ for c_ in type(a0).__mro__}
+                mro = {"builtins." + c_.__name__ for c_ in type(a0).__mro__ if c_ not in (_EnumInt, _EnumStr)}
                 return bool(mro & set(names))
         if n == "isinstance":
             t = tm.tyof(a0)
@@ -3377,6 +3723,24 @@ class Evaluator:
             for nm in m.assigns:  # module-level constants, in definition order
                 out[nm] = self.const(a0.args[0], nm)
             return out
+        if n == "zip" and pos and not kw and any(isinstance(x, _Iter) for x in pos) and all(isinstance(x, _Iter) or (_concrete_iter(x) is not None and not isinstance(x, dict)) for x in pos):
+            # zip over iterator objects consumes them in turn, one element per argument per round -- the same iterator given n times
+            # (zip(*[it] * n)) yields consecutive groups of n; the round that finds an argument exhausted ends it (what earlier
+            # arguments took in that round is lost, as in Python)
+            srcs = [x if isinstance(x, _Iter) else _Iter(list(_concrete_iter(x))) for x in pos]
+            rows = []
+            while True:
+                row = []
+                for it_ in srcs:
+                    if it_.pos >= len(it_.items):
+                        row = None
+                        break
+                    row.append(it_.items[it_.pos])
+                    it_.pos += 1
+                if row is None:
+                    break
+                rows.append(tuple(row))
+            return rows
         if n == "zip" and pos and not any(isinstance(x, (dict, _Iter)) for x in pos) and all(_concrete_iter(x) is not None for x in pos):
             return [tuple(t) for t in zip(*[_concrete_iter(x) for x in pos])]
         if n == "dict" and len(pos) == 1 and not kw:
